@@ -532,6 +532,9 @@ type Listener struct {
 	Closes   int
 	// AcceptCalls counts entries into Accept (Serve registers its listener before the first one).
 	AcceptCalls int
+	// TempAfterClose: once closed, Accept keeps answering with temporary errors (a wrapper or a
+	// platform that reports the closed descriptor as a transient condition).
+	TempAfterClose bool
 }
 
 type acceptItem struct {
@@ -576,6 +579,9 @@ func (l *Listener) Accept() (net.Conn, error) {
 				l.Accepts++
 				l.cond.Broadcast()
 				return c, nil
+			}
+			if l.TempAfterClose {
+				return nil, TempErr{N: -1}
 			}
 			return nil, net.ErrClosed
 		}
